@@ -71,17 +71,21 @@ def _close(a, b):
 
 
 def ob_raster(t0: float, dt: float, f0: float, df: float,
-              a0: float, a1: float, b0: float, b1: float, c0: float, c1: float, e0: float, e1: float,
-              v1: float, v2: float, fill: float, two: bool, scalar_value: bool) -> bool:
+              a0: float, a1: float, b0: float, b1: float,
+              v1: float, v2: float, fill: float, scalar_value: bool) -> bool:
     """
     pre: 0 <= t0 <= 100 and 0.01 <= dt <= 100 and 0 <= f0 <= 1000 and 1 <= df <= 1000
     pre: 0 <= a0 <= a1 <= 1000 and 0 <= b0 <= b1 <= 10000
-    pre: 0 <= c0 <= c1 <= 1000 and 0 <= e0 <= e1 <= 10000
     pre: -10 <= v1 <= 10 and -10 <= v2 <= 10 and -10 <= fill <= 10
     post: _
     """
     nt, nf, order, kind = h.P("nt"), h.P("nf"), h.P("order"), h.P("kind")
+    # second geometry (PARAMS['second']): a concrete box over the first time bin and every frequency, placed
+    # 'before' or 'after' the symbolic one, so that 'later geometries overwrite earlier ones' is exercised
+    second = h.P("second")
+    two = second is not None
     arr, ts, fs = _template(t0, dt, f0, df, nt, nf, order)
+    c0, c1, e0, e1 = t0, t0 + dt, 0.0, 5000000.0
     if kind == "box":
         geoms = [data.BoundingBox(coordinates=[a0, b0, a1, b1])]
         spans = [(a0, a1, b0, b1)]
@@ -95,6 +99,8 @@ def ob_raster(t0: float, dt: float, f0: float, df: float,
             geoms.append(data.BoundingBox(coordinates=[c0, e0, c1, e1]))
             spans.append((c0, c1, e0, e1))
     vals = [v1, v2][: len(geoms)]
+    if second == "before":
+        geoms, spans = geoms[::-1], spans[::-1]
     values = v1 if scalar_value else vals
     if scalar_value:
         vals = [v1] * len(geoms)
@@ -175,9 +181,13 @@ def plan():
         for order in ("ft", "tf"):
             for kind in ("box", "interval"):
                 quick = (nt, nf) in ((2, 3), (2, 2)) or ((nt, nf) == (3, 2) and order == "tf" and kind == "box")
-                obs.append(Ob("raster-%dx%d-%s-%s" % (nt, nf, order, kind), ob_raster, "real", 2400,
-                              dict(nt=nt, nf=nf, order=order, kind=kind), q if quick else ("thorough",),
-                              twins=("some", "none"), twin_timeout=300))
+                for second in (None, "after", "before"):
+                    qk = quick and (second is None or (nt, nf, order) == (2, 3, "ft"))
+                    obs.append(Ob("raster-%dx%d-%s-%s%s" % (nt, nf, order, kind, "-2nd" + second if second else ""),
+                                  ob_raster, "real", 2400,
+                                  dict(nt=nt, nf=nf, order=order, kind=kind, second=second),
+                                  q if qk else ("thorough",),
+                                  twins=("some", "none") if second is None else ("overwritten",), twin_timeout=300))
     obs.append(Ob("value-list-length", ob_raster_errors, "real", 300, {}, q, twins=("rejected",)))
     for (nt, nf, order) in ((2, 2, "ft"), (2, 3, "tf"), (3, 3, "ft")):
         obs.append(Ob("all-touched-%dx%d-%s" % (nt, nf, order), ob_all_touched, "real", 2400,
@@ -194,7 +204,8 @@ INFO = dict(
         "soundevent.geometry.conversion: bounding_box_to_shapely, time_interval_to_shapely",
     ],
     bounds="templates of 1..3 time bins x 1..3 frequency bins, both dimension orders, regular symbolic axes; 1-2 "
-    "geometries (BoundingBox, TimeInterval) with symbolic coordinates inside and beyond the axes; symbolic values and "
+    "geometries (one BoundingBox / TimeInterval with symbolic coordinates inside and beyond the axes, optionally a "
+    "fixed box before or after it); symbolic values and "
     "fill; scalar and list values; exact real arithmetic",
     trusted_base=[
         "models/rio.py: rasterize of axis-aligned rectangles = cells whose centre lies inside, last shape wins, "
